@@ -44,3 +44,9 @@ TEXT["C04"] = {
     "design_ref": "DESIGN.md section 3, C04",
     "level_note": "Real loopback HTTP; the exclusion stated in the property (offset -1 after exactly one byte) is applied by construction and counted.",
 }
+TEXT["C05"] = {
+    "technique": "property-based testing (rapid): generated contents x wrapper/HTTP stacks x start points x consumer stop indexes; oracle = independently computed sorted/deduplicated/filtered list, protocol monitors at every layer boundary, injected listing faults",
+    "level_text": "Generated-input search: listing sizes clustered around multiples of the page size, stacks of up to 4 layers from {http with every page-size relation and Link on/off, debug, select, sub with prefix siblings, unify with equal/overlapping/unknown second member, injected fault}, every class of start-after string, consumers that stop after k items, re-iteration of the same iterator value. A healthy stack must deliver exactly the independently computed list; a stack with a failing layer must end with an error; a monitor between every two layers fails the case if a consumer is invoked after it declined or after an error. Sampling with class histogram and required classes in the thorough tier.",
+    "design_ref": "DESIGN.md section 3, C05",
+    "level_note": "Real loopback HTTP; consumer is count-bounded so a looping pager fails the case instead of hanging it.",
+}
